@@ -30,6 +30,9 @@ META = {
     "assumptions": ["numpy.iinfo is the ground truth for what an integer dtype can hold",
                     "domain: min <= 0 or the legacy one-argument negative form; min <= max; [min,max] inside some NumPy integer dtype"],
 }
+META["rule"] += '; round 7: the dtype of the per-row output array collapsed() fills, observed at its numpy.full call, precedence given as list, tuple, int64/int32/uint64 ndarray'
+for _t in META["require"]:
+    META["require"][_t] = list(META["require"][_t]) + ['consequence:collapsed_output_dtype_observed:precedence_as_int64', 'consequence:collapsed_output_dtype_observed:precedence_as_list']
 
 
 def shards(tier):
